@@ -201,9 +201,34 @@ def must_locksets(f):
 
     IN, OUT = CFG.forward(f, frozenset(), transfer, lambda a, b: a & b)
     at = {}
+
+    def inside(n, cur):
+        """Nodes of a grafted helper body (an unknown static helper analysed as part of its caller) see the lock state as
+        it evolves through the helper's statements, in order."""
+        for x in walk(n):
+            at.setdefault(x["id"], frozenset(cur))
+            if x["k"] == "CallExpr" and x.get("callee") == LOCK:
+                a = call_args(x)[0]
+                cur.add((lock_class(a), lock_obj(a)))
+            elif x["k"] == "CallExpr" and x.get("callee") == UNLOCK:
+                a = call_args(x)[0]
+                cur.discard((lock_class(a), lock_obj(a)))
+        return cur
+
     for bid, st in IN.items():
         B = f.blocks[bid]
         for r in B.roots:
+            grafts = [n for n in walk(r) if n.get("inl") is not None]
+            if grafts:
+                cur = set(st)
+                # the root's own nodes first (state before the root), then each grafted body in evaluation order
+                done = set()
+                for g_ in grafts:
+                    if g_["id"] in done:
+                        continue
+                    for x in walk(g_["inl"]):
+                        done.add(x["id"])
+                    cur = inside(g_["inl"], cur)
             for n in walk(r):
                 at.setdefault(n["id"], st)
             st = apply(r, st)
